@@ -540,6 +540,54 @@ func pairPos2Shadowed(p *Pair, gs []G) bool {
 	return false
 }
 
+// pairPos2OverIgnorable: another face of ClsPairPos2. With default ignorables preserved,
+// a visible ignorable (soft hyphen ...) is passed over when a pair lookup looks for its
+// second glyph. 6.0.0 consumes a class-based pair whose second glyph has class 0 and
+// moves on to that second glyph, so the ignorable in between never becomes the first glyph
+// of a pair; the port (early exit of newer upstream) declines the pair, steps onto the
+// ignorable and kerns it with what follows. Witness: SourceSansPro-Regular.otf, U+0041
+// U+00AD U+03A4 with PRESERVE_DEFAULT_IGNORABLES: hyphen advance 311 (6.0.0) / 264 (port);
+// the same text with U+002D, or with a Latin T (listed in the second class definition),
+// agrees. Condition: the flag, a default ignorable in the item, and a glyph of the output
+// covered by a format 2 pair subtable.
+func pairPos2OverIgnorable(p *Pair, c *Case, gs []G) bool {
+	if c.Flags&FPreserveDI == 0 {
+		return false
+	}
+	ign := false
+	for _, r := range c.Item() {
+		if harfbuzz.IsDefaultIgnorable(r) {
+			ign = true
+		}
+	}
+	if !ign {
+		return false
+	}
+	found := false
+	func() {
+		defer func() { recover() }()
+		for _, lk := range p.Go.GPOS.Lookups {
+			for _, st := range lk.Subtables {
+				pp, ok := st.(tables.PairPos)
+				if !ok {
+					continue
+				}
+				d, ok := pp.Data.(tables.PairPosData2)
+				if !ok {
+					continue
+				}
+				for _, g := range gs {
+					if _, cov := d.Cov().Index(tables.GlyphID(g.GID)); cov {
+						found = true
+						return
+					}
+				}
+			}
+		}
+	}()
+	return found
+}
+
 // markAfterMultiple: see ClsMarkAfterMultiple. A mark glyph whose nearest
 // preceding non-mark glyph lies in a cluster that has more non-mark glyphs
 // than non-mark characters (a multiple substitution produced it).
@@ -663,6 +711,9 @@ func Judge(p *Pair, c *Case, sk *Skew) Verdict {
 		}
 	}
 	if cls == "" && p.Info.PairPos2Shadow != nil && pairPos2Shadowed(p, v.Go) {
+		cls = ClsPairPos2
+	}
+	if cls == "" && pairPos2OverIgnorable(p, c, v.Go) {
 		cls = ClsPairPos2
 	}
 	if cls == "" && markAfterMultiple(p, c, v.RS.Dir, v.Go) {
